@@ -7,8 +7,10 @@ import io
 import os
 import shutil
 
+import fractions
+
 from harness import wbgen
-from harness.common import canon, ensure_impl_on_path
+from harness.common import canon, dec_val, enc_val, ensure_impl_on_path, known_predicate, same
 
 GEN_MODULES = ['excelutil', 'aggregates', 'stats']
 
@@ -16,7 +18,133 @@ ASSUMPTIONS = [
     "stored results are integers, text and logicals computed by the implementation itself on a no-data "
     "copy of the workbook (integer arithmetic: 'consistent' is exact)",
     "the .xlsx files are written with openpyxl and the cached values injected into the sheet XML",
+    "theorems: formula meaning is an arbitrary total function of the precedents' values (nothing raises: the "
+    "exceptions / not-implemented buckets are oracle-only); close_enough is computed on exact rationals "
+    "((1 + 1e-5) * tol and math.isclose without IEEE rounding; the generated alterations stay away from the boundary)",
+    "correspondence: every validate_calcs run of the two oracle streams, plus two correspondence-only streams "
+    "(tolerance=0 on the consistent file; stored result = the text of the cell's own formula — the model reproduces "
+    "both implementation behaviours, coq/Refuted/C12_*.v), is replayed on the extracted loop (entry 'validate' of "
+    "coq/Extract/C12.v) with the same workbook, stored results, formula texts, tolerance and outputs; compared "
+    "exactly: the mismatch dictionary (insertion order, original, calced) and every cell value after the run",
 ]
+
+
+# ---- implementation behaviour the faithful model reproduces (coq/Refuted/C12_*.v); these streams are
+# correspondence-only (no oracle call), the predicates are inert until the coordinator lists them
+@known_predicate('C12-zero-tolerance')
+def _zero_tol(case):
+    args = case.get('args') or []
+    return case.get('call') == 'validate' and len(args) == 2 and args[1] is not None and args[1] <= 0
+
+
+@known_predicate('C12-stored-formula-text')
+def _formula_text(case):
+    pert = case.get('perturbed') or []
+    return case.get('call') == 'validate' and len(pert) == 4 and pert[3] == 'formula-text'
+
+
+def canon_model(v):
+    """model values -> the canonical form of implementation values"""
+    if isinstance(v, list):
+        return [canon_model(x) for x in v]
+    if isinstance(v, tuple) and not (len(v) == 2 and v[0] == 'float'):
+        return tuple(canon_model(x) for x in v)
+    return v
+
+
+def has_marker(v):
+    """the model's marker for 'the operator model raised' (outside the model)"""
+    if isinstance(v, (list, tuple)):
+        return any(has_marker(x) for x in v)
+    return v == '#MODEL-RAISE'
+
+
+def enc_tol(tol):
+    if tol is None:
+        return []
+    f = fractions.Fraction(tol)
+    return [f.numerator, f.denominator]
+
+
+def record(batch, case, wb, stored, comp, rep, outs, tol):
+    """What the implementation shows after validate_calcs, and the model call that replays it."""
+    texts = []
+    for n in wb.nodes:
+        cell = comp.cell_map.get(n['addr'])
+        t = str(cell.formula) if (cell is not None and n['kind'] == 'formula') else (n.get('text') or '')
+        texts.append([ord(c) for c in t])
+    oidx = wb.formulas() if outs is None else [wb.index_of(a) for a in outs]
+    irep = [(wb.index_of(a), canon(m.original), canon(m.calced)) for a, m in rep.get('mismatch', {}).items()]
+    batch.append((case, wb, ('validate', [wb.wire(stored=stored), texts, enc_tol(tol), oidx]),
+                  irep, wbgen.snapshot(comp, wb), sorted(set(rep) - {'mismatch'})))
+
+
+def compare(ctx, batch):
+    answers = ctx.model.batch([call for (_, _, call, _, _, _) in batch])
+    for (case, wb, _, irep, isnap, other), ans in zip(batch, answers):
+        if not (isinstance(ans, list) and len(ans) == 4 and all(isinstance(x, list) for x in ans)):
+            ctx.divergence(case, 'n/a', ans, 'Model/Validate.v validate entry rejected the input')
+            continue
+        left, _verified, mrep, msnap = ans
+        if left:                       # out of fuel: outside the model (needs a skipped 'No Orig data?' cell)
+            ctx.count(('fuel', repr(case)), kind='model:out-of-fuel')
+            continue
+        if other:                      # exception buckets are not modelled
+            ctx.count(('exc', repr(case)), kind='model:exception-bucket-skipped')
+            continue
+        mrep = [(e[0], canon_model(dec_val(e[1])), canon_model(dec_val(e[2]))) for e in mrep]
+        msnap = {i: canon_model(dec_val(x[1])) for i, x in enumerate(msnap) if x[0] == 1}
+        if has_marker([m[1:] for m in mrep]) or has_marker(list(msnap.values())):
+            ctx.count(('unmodelled', repr(case)), kind='model:unmodelled-operator')
+            continue
+        ctx.count(('corr', repr(case)), kind='correspondence:' + ('perturbed' if case.get('perturbed') else 'consistent'))
+        if [m[0] for m in mrep] != [i[0] for i in irep] or any(
+                not (same(m[1], i[1]) and same(m[2], i[2])) for m, i in zip(mrep, irep)):
+            ctx.divergence(case, irep, mrep, 'Model/Validate.v report = validate_calcs mismatch dictionary '
+                                             '(order, original, calced)')
+            continue
+        if set(msnap) != set(isnap) or any(not same(msnap[i], isnap[i]) for i in isnap):
+            diff = {i: (isnap.get(i, '<unbuilt>'), msnap.get(i, '<unbuilt>')) for i in set(isnap) | set(msnap)
+                    if i not in isnap or i not in msnap or not same(msnap[i], isnap[i])}
+            ctx.divergence(case, diff, 'see impl', 'Model/Validate.v final cache = cell_map values after validate_calcs')
+
+
+def close_enough_leg(ctx):
+    """_CellBase.close_enough against its hand transcription (Model/Validate.v close_enough): numbers (int, float,
+    logical), text, blank x tolerance None / positive / zero / negative; the alterations are powers of two times the
+    value or simple multiples of the tolerance, far from the (1 + 1e-5) * tol and 1e-5 / 1e-8 boundaries, so that
+    the exact-rational model and the float implementation must agree."""
+    import types
+    from pycel.excelcompiler import _CellBase
+    rng = ctx.rng
+    calls, meta = [], []
+    nums = [0, 1, 2, 3, 7, -4, 10, 1000, 12345, 0.5, 2.25, -1.5, 1024.0, True, False]
+    others = ['', 'a', 'zz', '#VALUE!', '12', None]
+    for _ in range(ctx.n(400, 4000)):
+        tol = rng.choice([None, None, 0.001, 1, 0.5, 2, 0, -1])
+        a = rng.choice(nums + others) if rng.random() < 0.85 else rng.choice(others)
+        if isinstance(a, (int, float)) and rng.random() < 0.85:
+            base = float(a) if not isinstance(a, bool) else int(a)
+            if tol:
+                b = base + rng.choice([0, tol / 2, -tol / 2, tol, 2 * tol, -2 * tol, 1.5 * tol, tol / 4])
+            else:
+                b = base + rng.choice([0, base * 2.0 ** -30, base * 2.0 ** -20, -base * 2.0 ** -20, base * 2.0 ** -10,
+                                       1, -1, 2.0 ** -30, 2.0 ** -20, -2.0 ** -30])
+            if rng.random() < 0.1:
+                b = rng.choice(others)
+        else:
+            b = rng.choice(nums + others)
+        try:
+            got = bool(_CellBase.close_enough(types.SimpleNamespace(value=a), b, tol=tol))
+        except Exception as exc:     # noqa: BLE001
+            got = ('raise', type(exc).__name__)
+        calls.append(('close_enough', [enc_tol(tol), enc_val(a), enc_val(b)]))
+        meta.append((dict(call='close_enough', args=[a, b, tol]), got))
+    for (case, got), ans in zip(meta, ctx.model.batch(calls)):
+        ctx.count(('close', repr(case['args'])), kind='correspondence:close_enough')
+        m = dec_val(ans) if isinstance(ans, list) and ans and ans[0] == 1 else ('bad', ans)
+        if m != got:
+            ctx.divergence(case, got, m, 'Model/Validate.v close_enough = _CellBase.close_enough')
 
 
 def ancestors(wb, n):
@@ -44,8 +172,11 @@ def run(ctx):
         "single-sheet DAG workbooks of 5-9 cells (C01 generator, integer/text/logical results) written as .xlsx "
         "with consistent stored results; then each formula cell in turn gets a perturbed stored result (number "
         "+-{tol/2, tol, 2 tol, 1}, text, logical, error value) x tolerance in {None, 0.001, 1} x checked outputs "
-        "(all formulas / one output); distinct = distinct (workbook, perturbed cell, perturbation, tolerance, outputs)")
+        "(all formulas / one output); distinct = distinct (workbook, perturbed cell, perturbation, tolerance, outputs); "
+        "every run is also replayed on the extracted loop model (correspondence:*), with two correspondence-only "
+        "streams per workbook: tolerance=0, and a stored result equal to the formula's own text")
     nwb = ctx.n(60, 600)
+    batch = []
     for k in range(nwb):
         wb = wbgen.gen_workbook(rng, ncells=rng.randrange(5, 10), pool=wbgen.CLEAN_POOL + [0, 1])
         desc = [(x['addr'], x.get('value'), x.get('text')) for x in wb.nodes]
@@ -67,6 +198,7 @@ def run(ctx):
                     ctx.violation(case, f"validate_calcs raises {type(exc).__name__}: {exc}"[:200])
                     continue
                 ctx.count(('ok', k, tol, repr(outs)), kind='consistent')
+                record(batch, case, wb, good, comp, rep, outs, tol)
                 if rep != {}:
                     ctx.violation(case, "non-empty report on a consistent workbook", impl=repr(rep)[:300], expected={})
         # ---- perturb one stored result at a time
@@ -97,6 +229,7 @@ def run(ctx):
                     continue
                 ctx.count(('pert', k, p, kind, tol, repr(outs)), kind='perturbed-' + kind,
                           sample=dict(case, report=repr(rep)[:200]))
+                record(batch, case, wb, altered, comp, rep, outs, tol)
                 mism = rep.get('mismatch', {})
                 if kind == 'half-tol' and tol is not None:
                     # within the tolerance: must not be reported
@@ -121,6 +254,29 @@ def run(ctx):
                                       impl=repr(rep)[:300])
                 if set(rep) - {'mismatch'}:
                     ctx.violation(case, "unexpected exception / not-implemented entries", impl=repr(rep)[:300])
+        # ---- correspondence-only streams (model and implementation agree; see coq/Refuted/C12_*.v)
+        try:
+            wbgen.write_xlsx_with_results(wb, good, path)
+            comp = ExcelCompiler(filename=path)
+            outs = rng.choice([None, [wb.nodes[rng.choice(formulas)]['addr']]])
+            rep = quiet(comp.validate_calcs, output_addrs=outs, tolerance=0)
+            record(batch, dict(call='validate', workbook=desc, args=[outs, 0], perturbed=None),
+                   wb, good, comp, rep, outs, 0)
+            p = rng.choice(formulas)
+            altered = dict(good)
+            altered[p] = wb.nodes[p]['text']
+            wbgen.write_xlsx_with_results(wb, altered, path)
+            comp = ExcelCompiler(filename=path)
+            tol = rng.choice([None, 0.001, 1])
+            rep = quiet(comp.validate_calcs, tolerance=tol)
+            record(batch, dict(call='validate', workbook=desc, args=[None, tol],
+                               perturbed=[wb.nodes[p]['addr'], good[p], altered[p], 'formula-text']),
+                   wb, altered, comp, rep, None, tol)
+        except Exception as exc:      # noqa: BLE001
+            ctx.broke('harness: correspondence-only stream failed', repr(exc))
+    if ctx.model:
+        compare(ctx, batch)
+        close_enough_leg(ctx)
     # ---- cells that cannot be evaluated are reported, not skipped
     for k in range(ctx.n(10, 100)):
         wb = wbgen.gen_workbook(rng, ncells=rng.randrange(4, 8), pool=wbgen.CLEAN_POOL)
